@@ -134,6 +134,24 @@ type RandCfg struct {
 	CbGate        bool     `json:"cbgate"` // FidDestroy / ConnClosed callbacks are slow (parked) once the client has gone
 	CbGateAlways  bool     `json:"cbgatealways"`
 	CloseVariants bool     `json:"closevariants"` // end the connection by EOF, an oversize header or an unparsable frame
+	Hold          bool     `json:"hold"`          // one long delay per case: a chosen request's goroutine stays parked at a chosen action until nothing else can happen
+}
+
+// holdNames: the Srv9P actions at which a goroutine can be delayed (one per hook of the server).
+var holdNames = []string{"WStart", "WDispatch", "Impl", "RPost", "REnq", "RUnlink", "RNext", "WEnd", "WFlush2", "WFlush3Op", "SWrite", "ImplLate"}
+
+// stepReq: the request a controller step belongs to (0: none).
+func stepReq(st []any) int {
+	switch st[0] {
+	case "RUnlink", "RPost", "REnq", "RNext":
+		return toInt(st[2])
+	case "SWrite", "CRecv", "CloseEnter", "CloseDestroy", "CbReturn", "ClientClose", "Recv":
+		return 0
+	}
+	if len(st) > 1 {
+		return toInt(st[1])
+	}
+	return 0
 }
 
 // TestRandom: seeded random client sessions under seeded random gate schedules, beyond TLC's bounds.
@@ -173,6 +191,11 @@ func TestRandom(t *testing.T) {
 				m.fst[f] = "valid"
 			}
 			sent := 0
+			holdName, holdReq := holdNames[ci%len(holdNames)], 1+(ci/len(holdNames))%3
+			holdActive, holdReleased := false, false
+			if rc.Hold {
+				k.C.Emit(Event{"ev": "note", "what": fmt.Sprintf("hold %s of request %d", holdName, holdReq)})
+			}
 			closeAt := -1
 			if rc.Close {
 				closeAt = rng.Intn(rc.NReq*12 + 1)
@@ -191,6 +214,25 @@ func TestRandom(t *testing.T) {
 				var next []any
 				if sent < rc.NReq && !k.Closed && !k.versionBusy() {
 					next = randomRequest(rng, m, cfg, rc)
+				}
+				if rc.Hold && !holdReleased {
+					var f [][]any
+					for _, st := range en {
+						name := st[0].(string)
+						if name == "ImplRespond" || name == "ImplAbort" {
+							name = "Impl"
+						}
+						if name == holdName && (name == "SWrite" || stepReq(st) == holdReq) {
+							holdActive = true
+							continue
+						}
+						f = append(f, st)
+					}
+					if holdActive && len(f) == 0 && next == nil {
+						holdReleased = true // nothing else can happen: the delayed goroutine goes on
+					} else {
+						en = f
+					}
 				}
 				if next == nil && len(en) == 0 {
 					break
